@@ -24,12 +24,32 @@ def _member(prog, ci, name):
 
 def admitted_channel_types(prog):
     """Classes the metadata parser admits as channel data types: a numeric size, or String."""
+    from .sym import Sym, eval_cond
+    from .sem import find, W
     fi = prog.func("tdms_segment.TdmsSegmentObject.read_raw_data_index")
+    sy = Sym(prog, fi, fi.cls, inline=False)
     guard = False
+
+    def scenario(size_none, is_string):
+        def orc(c):
+            if isinstance(c, tuple) and len(c) == 4 and c[0] == "cmp" and c[1] == "is" and c[3] == ("const", None) and isinstance(c[2], tuple) \
+                    and c[2][0] == "attr" and c[2][2] == "size":
+                return size_none
+            if isinstance(c, tuple) and len(c) == 4 and c[0] == "cmp" and c[1] in ("is", "==") and ("class", "types.String") in (c[2], c[3]):
+                return is_string
+            return None
+        return orc
     for n in walk_body(fi.node):
-        if isinstance(n, ast.If) and "size is None" in unparse(n.test) and "String" in unparse(n.test) \
-                and any(isinstance(x, ast.Raise) for s in n.body for x in ast.walk(s)):
-            guard = True
+        if isinstance(n, ast.Raise):
+            _env, guards = sy.env_at(n)
+            if not any(find(g, ("attr", W(), "size")) for g in guards):
+                continue
+
+            def runs(orc):
+                vals = [eval_cond(g, orc) for g in guards]
+                return not any(v is False for v in vals) and any(v is True for v in vals)
+            if runs(scenario(True, False)) and not runs(scenario(True, True)) and not runs(scenario(False, False)):
+                guard = True
     if not guard:
         raise AnchorMissing("tdms_segment.TdmsSegmentObject.read_raw_data_index: rejection of unsized non-string types")
     out = []
